@@ -198,11 +198,13 @@ theorem C18_upload_part_refines_partial (H : Hashes) (dl : Nat) {s : State} (hi 
     abs (step H dl s (.uploadPart who b k u n c)).1 = (StoreSpec.step H (abs s) (.uploadPart who b k u n c)).1 ∧
     Inv (step H dl s (.uploadPart who b k u n c)).1 := uploadPart_refines H dl hi hg
 
-/-- upload_part_copy: the part becomes the source object, or its `bytes=first-last` slice. Partial — excluded: ranges the
-    store refuses but the backend accepts (open-ended, beyond the end: fs:part-copy-range-unchecked; malformed ranges
-    are not covered), another key than the upload's (fs:upload-not-bound-to-key); a part number outside 1..10000 is
-    `InvalidArgument` (205d9a8; before it was not checked: fs:part-number-not-validated), an upload that does not exist
-    `NoSuchUpload`, on both sides -/
+/-- upload_part_copy: the part becomes the source object, or its `bytes=first-last` slice; ANY other value of
+    `x-amz-copy-source-range` — open-ended, suffix form, beyond the end of the source, first after last, a signed or
+    overflowing position, any other byte string — is `InvalidArgument` on both sides and changes nothing (814bd03: the
+    backend's reader accepts exactly what the store accepts, `copyRange_eq`; before, open-ended ranges and ranges beyond the
+    end were accepted: fs:part-copy-range-unchecked); a part number outside 1..10000 is `InvalidArgument` (205d9a8; before
+    it was not checked: fs:part-number-not-validated), an upload that does not exist `NoSuchUpload`, on both sides.
+    Partial — excluded only: another key than the upload's (fs:upload-not-bound-to-key) -/
 theorem C18_upload_part_copy_refines_partial (H : Hashes) (dl : Nat) {s : State} (hi : Inv s) {who : Who} {b k : Bytes}
     {u : UploadRef} {n : Int} {sb sk : Bytes} {range : Option Bytes} (hg : UploadPartCopyOk s b k u n sb sk range) :
     (step H dl s (.uploadPartCopy who b k u n sb sk range)).2 =
@@ -429,6 +431,20 @@ example : Good (run H0 4096 {} (demo.take 3)).1 (.deleteBucket bka) ∧
 /-- a ranged part copy `bytes=1-3` from an existing object into the owner's upload -/
 example : UploadPartCopyOk (run H0 4096 {} (demo.take 23)).1 bka kX (some 1) 2 bka kDE
     (some [98, 121, 116, 101, 115, 61, 49, 45, 51]) := by decide
+/-- … and every other value of `x-amz-copy-source-range` is inside too (814bd03; they were the excluded region
+    fs:part-copy-range-unchecked): beyond the end (`bytes=0-20` of 5 bytes), open-ended (`bytes=3-`), suffix form
+    (`bytes=-3`), a signed position (`bytes=+1-3`), first after last (`bytes=3-1`), a second dash (`bytes=1-3-5`), no unit
+    (`1-3`) — all refused with `InvalidArgument`, and the last byte alone (`bytes=4-4`) is copied -/
+example :
+    let s := (run H0 4096 {} (demo.take 23)).1
+    let bad : List Bytes := [[98, 121, 116, 101, 115, 61, 48, 45, 50, 48], [98, 121, 116, 101, 115, 61, 51, 45],
+      [98, 121, 116, 101, 115, 61, 45, 51], [98, 121, 116, 101, 115, 61, 43, 49, 45, 51],
+      [98, 121, 116, 101, 115, 61, 51, 45, 49], [98, 121, 116, 101, 115, 61, 49, 45, 51, 45, 53], [49, 45, 51], []]
+    (∀ r ∈ bad, Good s (.uploadPartCopy alice bka kX (some 1) 2 bka kDE (some r)) ∧
+      (step H0 4096 s (.uploadPartCopy alice bka kX (some 1) 2 bka kDE (some r))).2 = .err .InvalidArgument) ∧
+    Good s (.uploadPartCopy alice bka kX (some 1) 2 bka kDE (some [98, 121, 116, 101, 115, 61, 52, 45, 52])) ∧
+    (step H0 4096 s (.uploadPartCopy alice bka kX (some 1) 2 bka kDE (some [98, 121, 116, 101, 115, 61, 52, 45, 52]))).2 =
+      .part (some (etagOf H0 [5])) := by decide
 /-- a copy onto an object that has a metadata file, from a source without one, is inside `CopyOk` (8faafe7; it was the
     excluded region fs:stale-metadata-after-copy), and the object read afterwards has no metadata -/
 example : CopyOk (run H0 4096 {} (demo.take 5)).1 bka kA bka kDE ∧
